@@ -22,8 +22,7 @@ structure WF (st : State) : Prop where
     (st.tasks t).startFut = none ∧ (st.tasks t).outcome = none
   scope_exists : ∀ s, (st.scopes s).exists_ = true ↔ s < st.nScopes
   deadline_exists : ∀ s, (st.scopes s).deadline.isSome → (st.scopes s).exists_ = true
-  group_dflt : ∀ g, st.nGroups ≤ g → (st.groups g).tasks = [] ∧ (st.groups g).spawned = [] ∧
-    (st.groups g).entered = false ∧ (st.groups g).onCompleted = none
+  group_dflt : ∀ g, st.nGroups ≤ g → (st.groups g).tasks = [] ∧ (st.groups g).spawned = []
   ready_ok : ∀ h ∈ st.ready, HandleOk st h
   cur_ok : ∀ h ∈ st.cur, HandleOk st h
   timers_ok : ∀ p ∈ st.timers, HandleOk st p.2
